@@ -78,6 +78,41 @@ func C40Bodies(dir string) ([]C40Body, error) {
 			return api.AddWatermarks(bytes.NewReader(in), w, nil, m, newConf())
 		}
 	}
+	// every security handler revision: the per-object key derivation of R2-R4 differs from R5/R6
+	type encMode struct {
+		name string
+		aes  bool
+		bits int
+	}
+	encModes := []encMode{{"rc4-40", false, 40}, {"rc4-128", false, 128}, {"aes-128", true, 128}, {"aes-256", true, 256}}
+	encConf := func(m encMode) *model.Configuration {
+		c := newConf()
+		c.UserPW, c.OwnerPW = "upw", "opw"
+		c.EncryptUsingAES, c.EncryptKeyLength = m.aes, m.bits
+		return c
+	}
+	var cryptoBodies []C40Body
+	for _, m := range encModes {
+		m := m
+		var enc bytes.Buffer
+		if err := api.Encrypt(bytes.NewReader(big), &enc, encConf(m)); err != nil {
+			return nil, fmt.Errorf("c40 fixture encrypt %s: %w", m.name, err)
+		}
+		encrypted := enc.Bytes()
+		if m.bits != 256 {
+			cryptoBodies = append(cryptoBodies, op("encrypt "+m.name, func(w *bytes.Buffer) error {
+				return api.Encrypt(bytes.NewReader(in), w, encConf(m))
+			}))
+		}
+		cryptoBodies = append(cryptoBodies,
+			op("decrypt "+m.name, func(w *bytes.Buffer) error {
+				return api.Decrypt(bytes.NewReader(encrypted), w, encConf(m))
+			}),
+			op("change user password "+m.name, func(w *bytes.Buffer) error {
+				return api.ChangeUserPassword(bytes.NewReader(encrypted), w, "upw", "new", encConf(m))
+			}),
+		)
+	}
 	bodies := []C40Body{
 		{Name: "read+validate", Run: func(int) string {
 			conf := newConf()
@@ -134,5 +169,5 @@ func C40Bodies(dir string) ([]C40Body, error) {
 			return fmt.Sprint(c.ValidationMode, c.Eol, c.WriteObjectStream)
 		}},
 	}
-	return bodies, nil
+	return append(bodies, cryptoBodies...), nil
 }
